@@ -620,10 +620,10 @@ def parse_testbench(text):
     return dict(init=init, clocks=clocks)
 
 
-def replay_testvectors(elab, tv_text, tb_text):
+def replay_testvectors(elab, tv_text, tb_text, case_merge=False):
     """-> dict(checks=n, failed=[...first few...], sets=n)"""
     tb = parse_testbench(tb_text)
-    it = Interp(elab)
+    it = Interp(elab, case_merge=case_merge)
     ports = {pn: (d, n) for pn, d, n in elab.top_ports}
     for nm, c in tb["init"].items():
         if nm in ports:
